@@ -1016,6 +1016,7 @@ func TestC44(t *testing.T) {
 	c44GPGMade(m, ks)
 	c44RMD160(m, ks)
 	c44Tamper(m, ks)
+	c44MPILengthClasses(m, ks)
 	c44WriterSplits(m, ks)
 	c44CanonHashSplits(m)
 	ks.verifyKeysUnchanged(m)
@@ -1036,4 +1037,5 @@ func TestC44(t *testing.T) {
 	m.Gate("text_cases:canonical_classes", m.N(20, 1000), "text-mode signatures over bare LF / CRLF / trailing blanks / no final newline")
 	c44TamperGates(m)
 	c44SplitGates(m)
+	c44MPIClassGates(m)
 }
